@@ -164,8 +164,9 @@ def _join(dir_, name):
     return "/".join(list(dir_) + [".".join(name)])
 
 
-def render_directive(d, root):
+def render_directive(d, root, variant=0):
     p = d["p"]
+    d = dict(d, cmd=[d["cmd"], d["cmd"].upper(), d["cmd"], d["cmd"].title()][variant % 4])      # directive names are case-insensitive
     if p["k"] == "none":
         return d["cmd"]
     path = _join(p["dir"], p["name"])
@@ -186,7 +187,7 @@ def run_scenario(task):
         main = [".link 1000", f".byte {a:o}, {b:o}, {c:o}, 377"]
         inc = [f".byte {c:o}, {a:o}"]
         for d in sc["ds"]:
-            (inc if d["inc"] else main).append(render_directive(d, root))
+            (inc if d["inc"] else main).append(render_directive(d, root, idx + len(main) + len(inc)))
         uses_inc = any(d["inc"] for d in sc["ds"])
         if uses_inc:
             main.append('.include "lib/part.mac"')
@@ -219,6 +220,9 @@ def run_scenario(task):
         want = {_join(f["dir"], f["name"]): f for f in rec["files"]}
         for rel in want:
             Path(root, rel).parent.mkdir(parents=True, exist_ok=True)
+            if idx % 2 == 0:
+                # every other scenario finds an older, LONGER file at each output path (the previous build's): the new file replaces it
+                Path(root, rel).write_bytes(bytes([0xEE]) * (400000 if want[rel]["fmt"] in ("n", "t") else 5000))
         src_arg = str(Path(root, src_rel)) if sc["srcAbs"] else os.path.relpath(Path(root, src_rel), cwd)
         args = [src_arg]
         o = sc["o"]
